@@ -46,13 +46,17 @@ REQUIRED_MONITORS = ["growth-rule", "short-input-cap", "harvest"]
 HERE = os.path.dirname(os.path.dirname(os.path.abspath(__file__)))
 
 GENERIC_ATOMS = ["a", "1", "-", ".", ":", "/", "a-", "1.", "a1", ".1", "-a", "a:", "ab", " ", "@", "A", "_",
-                 "a/", "/a", "a.", "1-", "-1", "a-a", "1.1", ":a", "a-1.", "C", "Ca", "aA", ",", "1,", "a,", "9", "0"]
+                 "a/", "/a", "a.", "1-", "-1", "a-a", "1.1", ":a", "a-1.", "C", "Ca", "aA", ",", "1,", "a,", "9", "0", "\"", "'", "\"'"]
 GENERIC_BLOCKS = [["a", "-", "1"], ["/", "-", "."], ["a", ":", "1"], ["1", ".", "1"], ["a", "-", "a"], ["a/", "a-", "a."],
                   ["-", ":", "-"], ["A", "a", "-"], ["1", "-", "1"], ["1", ",", "1"]]
 GENERIC_PREFIX = ["", "a", "1", "RC-", "a-0:1-", "n:s:", "F-22-20150522", "1-", "1,"]
 GENERIC_SUFFIX = ["", "!", "\n", ".x86_64",
                   # valid tails: the pump sits in front of an input the target ACCEPTS (cost blow-ups of accepted inputs)
                   "n:s", "a:1:2:c", "a-0:1-1.noarch", "a-1", "f-23-updates", "RC-1.0", "20150522.n.0", "1.0", "a"]
+STRUCTURES = [("composeinfo-chain", "doc:ComposeInfo.loads"), ("composeinfo-chain-dup", "doc:ComposeInfo.loads"),
+              ("composeinfo-wide", "doc:ComposeInfo.loads"), ("composeinfo-wide-dup", "doc:ComposeInfo.loads"),
+              ("treeinfo-chain", "doc:TreeInfo.loads"), ("treeinfo-chain-dup", "doc:TreeInfo.loads"),
+              ("images-same-image-repeated", "doc:Images.loads")]
 SENTINELS = [("is_valid_release_short", "", "a", "!"), ("is_valid_release_short", "", "a-", "!"), ("is_valid_release_version", "", "1", "x"),
              ("is_valid_release_version", "", "1.", "x"), ("is_valid_release_type", "", "a", "!"), ("is_valid_release_type", "a", "1", "_"),
              ("create_release_id:short", "", "a", "!"), ("create_release_id:version", "", "1", "!"), ("parse_release_id", "", "a-", ""),
@@ -355,11 +359,21 @@ def run_shard(ctx):
                 f["target"] = {"kind": "pattern", "pattern": p["pattern"], "flags": p["flags"] & ~re.UNICODE, "method": m}
                 families.append(f)
     for name in hv["targets"]:
-        for pre in GENERIC_PREFIX:
+        if name.startswith("doc:"):
+            continue
+        # field-in-document targets get a reduced grid (each call loads a whole document)
+        in_doc = ".loads:" in name
+        for pre in (GENERIC_PREFIX if not in_doc else ["", "a", "1", "1-"]):
             for pump in GENERIC_ATOMS:
-                for suf in GENERIC_SUFFIX:
+                for suf in (GENERIC_SUFFIX if not in_doc else ["", "!", "a"]):
                     families.append({"prefix": pre, "pump": pump, "suffix": suf, "target": {"kind": "callable", "name": name}})
+    for sname, tname in STRUCTURES:
+        if tname in hv["targets"]:
+            families.append({"prefix": "", "pump": "", "suffix": "", "structure": sname, "target": {"kind": "callable", "name": tname},
+                             "sentinel": True})
     for name in hv["targets"]:
+        if name.startswith("doc:"):
+            continue
         for blocks in GENERIC_BLOCKS:
             for pre in ("", "a-0:", "RC-"):
                 for suf in ("", "!", ".x86_64"):
@@ -458,6 +472,9 @@ def run_shard(ctx):
             measured_calls += len(pts)
             case = {"target": fam["target"], "prefix": fam["prefix"], "pump": fam.get("pump"), "blocks": fam.get("blocks"),
                     "suffix": fam["suffix"], "points": pts}
+            if fam.get("structure"):
+                case["structure"] = fam["structure"]
+                ctx.count("structural-family")
             if r["verdict"] == "unmeasured":
                 if r["id"] in sentinel_ids:
                     ctx.starved("sentinel family %d not measured within the budget" % r["id"])
@@ -486,7 +503,8 @@ def run_shard(ctx):
 
 
 def case_sig(fam):
-    return {"t": fam["target"], "p": fam["prefix"], "u": fam.get("pump"), "b": fam.get("blocks"), "s": fam["suffix"]}
+    return {"t": fam["target"], "p": fam["prefix"], "u": fam.get("pump"), "b": fam.get("blocks"), "s": fam["suffix"],
+            "st": fam.get("structure")}
 
 
 def classify(fam):
@@ -516,6 +534,8 @@ def replay(ctx, case):
                           expected="milliseconds")
         return
     fam = {"id": 0, "target": case["target"], "prefix": case["prefix"], "pump": case.get("pump") or "", "suffix": case["suffix"]}
+    if case.get("structure"):
+        fam["structure"] = case["structure"]
     if case.get("blocks"):
         fam["blocks"] = case["blocks"]
     scratch = ctx.scratch
